@@ -43,8 +43,8 @@ OPS = ['get', 'iterate', 'keys', 'assign', 'delete']
 
 def budget(tier):
     if tier == 'thorough':
-        return {'seeds': 30000, 'wall': 840, 'chunk': 50}
-    return {'seeds': 2500, 'wall': 150, 'chunk': 20}
+        return {'seeds': 120000, 'wall': 900, 'chunk': 100}
+    return {'seeds': 8000, 'wall': 200, 'chunk': 50}
 
 
 # ------------------------------------------------------------------------------------ family
